@@ -2,5 +2,23 @@
 
 package rhp
 
-// VerifMaxLen forwards to the unexported per-object receive limit (C19).
+import "go.sia.tech/core/types"
+
+// Forwarding functions for the verification harness (C10/C11): the codec
+// methods of rhp/v4 objects are unexported.
+
+// VerifCodec is the unexported codec pair shared by Objects, parameter
+// structs and AccountToken.
+type VerifCodec interface {
+	encodeTo(*types.Encoder)
+	decodeFrom(*types.Decoder)
+}
+
+// VerifEncode forwards to o.encodeTo.
+func VerifEncode(o VerifCodec, e *types.Encoder) { o.encodeTo(e) }
+
+// VerifDecode forwards to o.decodeFrom.
+func VerifDecode(o VerifCodec, d *types.Decoder) { o.decodeFrom(d) }
+
+// VerifMaxLen forwards to o.maxLen.
 func VerifMaxLen(o Object) int { return o.maxLen() }
